@@ -29,6 +29,9 @@ Definition error_formats_ok : bool :=
 Definition tokenizer_sites_all_guarded : bool := match K.tok_unguarded_sites with [] => true | _ => false end.
 Definition tokenizer_raises_only_through_error : bool := match K.tok_foreign_raises with [] => true | _ => false end.
 Definition kvparse_raises_only_keyvalerror : bool := match K.kv_foreign_raises with [] => true | _ => false end.
+(** ... and that type IS KeyValError on every path: [Tokenizer(..., KeyValError, ...)] for a text, [tokenizer.error_type =
+    KeyValError] unconditionally for a tokenizer passed in (the model calls every [K_LEX] exit a KeyValError). *)
+Definition kvparse_tokenizer_errors_are_keyvalerror : bool := K.kv_error_type_installed.
 
 (* ---- outcome codes shared with checks/c03.py ---- *)
 Definition kerr_code (e : kerr) : N :=
